@@ -1149,7 +1149,17 @@ impl AnnotationStore {
         for result in reader.deserialize() {
             let record: AnnotationCsv = result
                 .map_err(|e| StamError::CsvError(format!("{}", e), "while parsing Annotation"))?;
-            self.annotate(record.try_into()?)?;
+            let is_temp_id = if let Some(id) = record.id.as_ref() {
+                self.reserve_for_temp_id(id)?
+            } else {
+                false
+            };
+            let mut builder: AnnotationBuilder = record.try_into()?;
+            if is_temp_id {
+                //strip the temporary public ID, it maps to a handle directly
+                builder.id = BuildItem::None;
+            }
+            self.annotate(builder)?;
         }
         Ok(())
     }
@@ -1288,8 +1298,13 @@ impl FromCsv for AnnotationDataSet {
             {
                 dataset.insert(DataKey::new(record.key))?;
             } else {
+                let is_temp_id = if let Some(id) = record.id.as_ref() {
+                    dataset.reserve_for_temp_id(id)?
+                } else {
+                    false
+                };
                 let builder = AnnotationDataBuilder {
-                    id: if record.id.is_none() || record.id.as_ref().unwrap().is_empty() {
+                    id: if is_temp_id || record.id.is_none() || record.id.as_ref().unwrap().is_empty() {
                         BuildItem::None
                     } else {
                         BuildItem::Id(record.id.as_ref().unwrap().to_string())
